@@ -337,7 +337,7 @@ func panicSiteFromStack(stack string) string {
 
 func runC06(c *wk.Ctx) {
 	rig.SendTimerStallIsVerdict = true
-	c.Meta("rule", "session histories (1 execute; 3 serial; 2 overlapping then 1; 3 overlapping; with to-step signals serial/overlapping; unused open signal channel; step-fatal errors; rejected input) against the real client and real RunATPServer in one process over buffered and chunked in-memory transports. Schedules: a baseline run records every (yield point, hit ordinal<=3) reached in atp/client.go+server.go (overlay build, one yield point before every statement); then every such point is paused singly, and pairs are sampled (thorough: many more). A paused goroutine is parked until a stop-the-world goroutine snapshot shows every other goroutine blocked, then released (logical time, no sleeps). Verdict: a snapshot with every goroutine blocked on chan/cond/mutex/WaitGroup, nothing parked, no SDK timer pending, and an unreturned Execute/Close = deadlock. non-trivial = at least one pause actually took effect; distinct = hash(history, schedule, transport)")
+	c.Meta("rule", "session histories (1 execute; 3 serial; 2 overlapping then 1; 3 overlapping; with to-step signals serial/overlapping; unused open signal channel; step-fatal errors; rejected input) against the real client and real RunATPServer in one process over buffered and chunked in-memory transports. Schedules: a baseline run records every (yield point, hit ordinal<=3) reached in atp/client.go+server.go (overlay build, one yield point before every statement); then every such point is paused singly, and pairs are sampled (thorough: many more). A paused goroutine is parked until a stop-the-world goroutine snapshot shows every other goroutine blocked, then released (logical time, no sleeps). Verdict: a snapshot with every goroutine blocked on chan/cond/mutex/WaitGroup, nothing parked, no SDK timer pending, and an unreturned Execute/Close = deadlock. non-trivial = at least one pause actually took effect; distinct = hash(history, schedule, transport) Histories with steps that need their signal to finish, and with a signal handler that takes its time while other calls go on.")
 	c.Meta("assumptions", []string{"a goroutine parked in the SDK's two timed selects (60 s send timeout, 5 s close timeout) makes the snapshot non-quiescent; such runs end inconclusive, never as violations",
 		"schedules perturb at statement granularity, singly and in pairs; triple-delay interleavings are out of reach"})
 	if !rig.OverlayBuild {
